@@ -194,6 +194,109 @@ def run_dotdot(sccache, ci=9):
         shutil.rmtree(d, ignore_errors=True)
 
 
+# ---- only the include-path-affecting arguments / environment change between two compiles ----
+# name -> (directories/files to create below the project dir, (args1, env1), (args2, env2))
+# x.c includes <value.h> (and uses A, B); the two requests must find DIFFERENT headers / get different macros, and the
+# pairs marked "shift" have the same concatenation of arguments resp. NAME=value strings.
+def arg_scenarios(proj):
+    P = lambda *a: os.path.join(proj, *a)
+    return {
+        # boundary shift between two -I arguments (a directory whose name contains "-I")
+        'I_shift': ({'bar/value.h': 1, 'foo-Ibar/value.h': 2, 'foo/.keep': None},
+                    (['-Ifoo', '-Ibar'], {}), (['-Ifoo-Ibar'], {})),
+        # -D boundary shift: A=1,B=2 versus A="1-DB=2" (B falls back to its default)
+        'D_shift': ({'inc/value.h': 1}, (['-Iinc', '-DA=1', '-DB=2'], {}), (['-Iinc', '-DA=1-DB=2'], {})),
+        # split "-I dir" / "-Idir" spelling with different directories of the same concatenation
+        'I_split': ({'x/value.h': 1, '-Iy/value.h': 3, '-Iy-Ix/value.h': 4},
+                    (['-I', '-Iy', '-Ix'], {}), (['-I-Iy-Ix'], {})),
+        # ordinary changes
+        'I_order': ({'a/value.h': 1, 'b/value.h': 2}, (['-Ia', '-Ib'], {}), (['-Ib', '-Ia'], {})),
+        'I_other_dir': ({'a/value.h': 1, 'b/value.h': 2}, (['-Ia'], {}), (['-Ib'], {})),
+        'D_value': ({'inc/value.h': 1}, (['-Iinc', '-DA=1'], {}), (['-Iinc', '-DA=7'], {})),
+        'include_file': ({'inc/value.h': 1, 'c1.h': 'A 5', 'c2.h': 'A 6'},
+                         (['-Iinc', '-include', 'c1.h'], {}), (['-Iinc', '-include', 'c2.h'], {})),
+        'isystem_vs_I': ({'a/value.h': 1, 'b/value.h': 2}, (['-isystem', 'a', '-Ib'], {}), (['-Ia', '-isystem', 'b'], {})),
+        # environment: CPATH / C_INCLUDE_PATH, incl. the name/value shift CPATH=/a C_INCLUDE_PATH=/b -> CPATH=/aC_INCLUDE_PATH=/b
+        'CPATH_change': ({'a/value.h': 1, 'b/value.h': 2}, ([], {'CPATH': P('a')}), ([], {'CPATH': P('b')})),
+        'CPATH_to_C_INCLUDE_PATH': ({'a/value.h': 1, 'b/value.h': 2},
+                                    ([], {'CPATH': P('a'), 'C_INCLUDE_PATH': P('b')}), ([], {'CPATH': P('b'), 'C_INCLUDE_PATH': P('a')})),
+        'env_shift': ({'b/value.h': 1, 'a/.keep': None, ('aC_INCLUDE_PATH=' + P('b')) + '/value.h': 2},
+                      ([], {'CPATH': P('a'), 'C_INCLUDE_PATH': P('b')}),
+                      ([], {'CPATH': P('a') + 'C_INCLUDE_PATH=' + P('b')})),
+        'arg_to_env': ({'a/value.h': 1, 'b/value.h': 2}, (['-Ia'], {}), ([], {'CPATH': P('b')})),
+    }
+
+
+ARG_SCENARIOS = ['I_shift', 'D_shift', 'I_split', 'I_order', 'I_other_dir', 'D_value', 'include_file', 'isystem_vs_I',
+                 'CPATH_change', 'CPATH_to_C_INCLUDE_PATH', 'env_shift', 'arg_to_env']
+
+
+def run_arg_scenario(sccache, name, ci=9, swap=False):
+    """compile x.c with (args1, env1), then with (args2, env2) - headers untouched; the second object must be what
+    gcc alone produces for (args2, env2), and the second request must not be a direct-mode hit"""
+    d = tempfile.mkdtemp(prefix='vh-c04e-', dir='/dev/shm')
+    srv = None
+    try:
+        proj = os.path.join(d, 'proj')
+        os.makedirs(proj)
+        files, r1, r2 = arg_scenarios(proj)[name]
+        if swap:
+            r1, r2 = r2, r1
+        for rel, val in files.items():
+            p = os.path.join(proj, rel)
+            os.makedirs(os.path.dirname(p), exist_ok=True)
+            if val is None:
+                open(p, 'w').write('')
+            elif isinstance(val, int):
+                open(p, 'w').write('#define VALUE %d\n' % val)
+            else:
+                open(p, 'w').write('#define %s\n' % val)
+        open(os.path.join(proj, 'x.c'), 'w').write(
+            '#include <value.h>\n#ifndef A\n#define A 100\n#endif\n#ifndef B\n#define B 200\n#endif\n'
+            '#define STR2(x) #x\n#define STR(x) STR2(x)\n'
+            'int value = VALUE;\nconst char *a = STR(A);\nconst char *b = STR(B);\n')
+        open(os.path.join(d, 'config'), 'w').write(cfg_toml(os.path.join(d, 'cache'), ci))
+        base = {'SCCACHE_CONF': os.path.join(d, 'config'), 'SCCACHE_SERVER_UDS': os.path.join(d, 'sock'),
+                'SCCACHE_IDLE_TIMEOUT': '0', 'SCCACHE_LOG': 'sccache::compiler=debug', 'SCCACHE_NO_DAEMON': '1'}
+        time.sleep(0.05)
+        log = open(os.path.join(d, 'server.log'), 'ab')
+        srv = subprocess.Popen([sccache], env=clean_env(dict(base, SCCACHE_START_SERVER='1')), stdout=log, stderr=log, cwd=proj)
+        for _ in range(200):
+            if os.path.exists(os.path.join(d, 'sock')):
+                break
+            time.sleep(0.02)
+
+        def cc(wrapper, req, out):
+            args, env = req
+            e = clean_env(dict(base, **env) if wrapper else dict(env))
+            e = {k: v for k, v in e.items() if wrapper or not k.startswith('SCCACHE_')}
+            return subprocess.run(wrapper + ['gcc'] + args + ['-c', 'x.c', '-o', out], env=e, cwd=proj,
+                                  stdout=subprocess.PIPE, stderr=subprocess.STDOUT, timeout=120).returncode
+        rcs = [cc([sccache], r1, 'first.o'), cc([sccache], r1, 'again.o'), cc([sccache], r2, 'second.o'),
+               cc([], r1, 'ref1.o'), cc([], r2, 'ref2.o')]
+        subprocess.run([sccache, '--stop-server'], env=clean_env(base), stdout=subprocess.DEVNULL, stderr=subprocess.DEVNULL, timeout=30)
+        try:
+            srv.wait(timeout=10)
+        except subprocess.TimeoutExpired:
+            srv.kill()
+        srv = None
+        logt = open(os.path.join(d, 'server.log'), 'rb').read().decode('utf-8', 'replace')
+        hits = [l for l in logt.split('\n') if 'Preprocessor cache hit' in l]
+        rd = lambda n: open(os.path.join(proj, n), 'rb').read() if os.path.exists(os.path.join(proj, n)) else None
+        return dict(name=name, swap=swap, rcs=rcs, direct_hits=len(hits),
+                    first_ok=rd('first.o') is not None and rd('first.o') == rd('ref1.o') == rd('again.o'),
+                    second_ok=rd('second.o') is not None and rd('second.o') == rd('ref2.o'),
+                    refs_differ=rd('ref1.o') != rd('ref2.o'))
+    finally:
+        if srv is not None:
+            try:
+                srv.kill()
+                srv.wait()
+            except Exception:
+                pass
+        shutil.rmtree(d, ignore_errors=True)
+
+
 def model_case(ci, edit):
     """the same scenario as a ppcache case for the extracted model (system headers, unchanged, are left out)"""
     init, edited, backdate, epoch_change = EDITS[edit]
@@ -210,4 +313,8 @@ def model_case(ci, edit):
 if __name__ == '__main__':
     import sys
     import json
-    print(json.dumps(run_scenario(sys.argv[1], int(sys.argv[2]), sys.argv[3], keep=len(sys.argv) > 4), indent=1))
+    if sys.argv[2] == 'args':
+        for n in ARG_SCENARIOS:
+            print(json.dumps(run_arg_scenario(sys.argv[1], n)))
+    else:
+        print(json.dumps(run_scenario(sys.argv[1], int(sys.argv[2]), sys.argv[3], keep=len(sys.argv) > 4), indent=1))
